@@ -63,6 +63,10 @@ CLAIMED['C16'] = ('fault_enumeration', 'deterministic simulation: seeded (proced
     'One awaited procedure per case out of 32 (GATT read/long read/write/discovery/subscribe/notify+read, EATT CCCD write, server indication, pair, encrypt, LE CoC connect/disconnect/drain, connection parameter update over L2CAP, remote features, pending LE and BR/EDR connect, pending disconnect, queued HCI commands, classic channel connect/disconnect, ERTM transfer, RFCOMM start/open/drain, SDP continuation query, AVDTP discover, remote name/features). A fault-free run counts the N messages the procedure exchanges over the air; the case is re-run once for every k in 0..N with a disconnection by the initiator side, by the responder side, a supervision timeout reported by both controllers, or loss of the HCI transport of either side, fired right after air message k, optionally with a second idle connection on the initiator. Oracle after quiescence + up to 60 virtual seconds: no awaited call still pending; Host.connections == Device.connections == controller tables on every reachable node (host == device behind a lost transport), both ends of each link agree, no subscription / pending indication / SMP session / L2CAP channel, identifier or request entry / queued packet remains for the dead handle, and the untouched connection is still there and answers a request. The boundary space per case is enumerated completely; cases are sampled.',
     'Trusted: supervision timeout emulated by the virtual controllers reporting Disconnection Complete (0x08); controller entries with handle 0 are pages in progress; a waiter ending with any result, error or cancellation is accepted.', 'DESIGN.md §5 C16')
 
+CLAIMED['C17'] = ('exploration', 'deterministic simulation: seeded sequences of hostile frames injected by the simulated peer or controller into a live connection, then a reference request; wall-clock, step and call-depth guards per frame',
+    'A complete victim stack with one connection receives 1-14 hostile frames on one target: ATT to its server (also with an indication awaiting confirmation), ATT to its client (also with a request pending), SMP, LE signalling, arbitrary CIDs, raw L2CAP frames with falsified length fields; classic signalling, SDP, RFCOMM, the HFP AT stream of an AG and of an HF (also with a command pending), AVDTP, AVCTP (the attacker opens these channels through a real bumble client and then writes garbage into them); HCI event / ACL / ISO / SCO / unknown packets injected into the controller->host channel. Frames are random bytes, valid PDUs of per-protocol corpora that are truncated, extended, bit-flipped, concatenated or get their length fields falsified, deeply nested SDP elements, AVDTP/AVCTP fragment-flag permutations, AT lines with unbalanced quotes/parentheses and missing terminators. Oracle: each frame is processed within 8 s wall / 60000 loop steps / 300 nested Python calls (sys.setprofile meter, so a RecursionError that bumble swallows is seen too); the connection stays in Device.connections and Host.connections; a request that was pending during the attack concludes; the reference request (ATT read, second indication, Pairing Request, LE credit based connection, L2CAP echo, SDP search, echo over the DLC, AT+CIND?, an HF command, AVDTP discover, AVCTP command, HCI command + GATT read) is answered as before the attack. Sampling, not proof.',
+    'Trusted: the classification of legitimate closes (well-formed Disconnection/Connection Complete for the live handle, Hardware Error, FCS-valid SABM/DISC/DM and PN/MSC/FCon/FCoff/CLD) for which the reference is skipped; exceptions contained at the simulated transport boundary are ordinary.', 'DESIGN.md §5 C17')
+
 CLAIMED['C13'] = ('exploration', 'deterministic simulation: seeded pairing configurations, user answers with delays, in-flight SMP corruption, reconnection in both roles; association-model table enumerated',
     'All 100 cells of the association-model table (5x5 IO capabilities x legacy/SC x MITM) are walked in every tier; seeded search over SC/MITM/bonding and 4-bit key-distribution masks per side, central- or peripheral-initiated pairing, user answers (reject, wrong passkey, compare no, confirm no, delays, passkey 000000), one SMP PDU corrupted in flight, a second pairing on the same connection, then reconnection in the same and in swapped roles with encrypt(). Oracle: pair() and the responder event both conclude, both succeed or both fail, link encrypted, association model and display/input roles equal the transcribed Table 2.8, key authenticated flags <=> passkey/numeric comparison, SC LTKs equal, legacy copies equal what the peer generated, no keys after a forced failure, and on reconnection the key in LE Enable Encryption equals the key in the peripheral Long Term Key Request Reply. Sampling, not proof.',
     'Trusted: transcription of Table 2.8 (DESIGN.md App. C); identity address type = static random so that bonded keys are found by address; OOB and CTKD over BR/EDR not covered; LTK request event injected because the virtual controller grants encryption by itself.', 'DESIGN.md §5 C13')
